@@ -520,6 +520,7 @@ class Gen:
         self.cid = 0
         self.mid = 0
         self.fid = 0
+        self.kinds = RAISE_KINDS
 
     def pick(self, weighted):
         tot = sum(w for _, w in weighted)
@@ -530,9 +531,9 @@ class Gen:
                 return v
         return weighted[-1][0]
 
-    def exc(self, kinds=RAISE_KINDS):
+    def exc(self, kinds=None):
         self.tag += 1
-        return [self.pick(kinds), self.tag]
+        return [self.pick(kinds or self.kinds), self.tag]
 
     def uc(self):
         self.cid += 1
@@ -597,18 +598,25 @@ class Gen:
         rng = self.rng
         skip_deco = some(rng.randrange(1, 50)) if rng.random() < 0.04 else None
         xfail_deco = rng.random() < 0.08
+        # handlers first: programs with user handlers raise the handled classes (and the benign kinds that could mask
+        # them) much more often - otherwise handler precedence is hardly ever exercised together with several exceptions
+        handlers = []
+        if rng.random() < 0.3:
+            all_unsuccessful = rng.random() < 0.7
+            for cls in rng.sample([['user', 2, 'exc'], ['user', 1, 'skip'], ['user', 3, 'failure'], 'exc'], rng.randint(1, 2)):
+                outs = ['failure', 'error', 'uxs'] if all_unsuccessful else ['failure', 'error', 'uxs', 'skip', 'xfail', 'success']
+                if rng.random() < 0.75:
+                    rep = ['user', len(handlers), rng.choice(outs)]
+                else:
+                    # the case's own skip reporter reads the reason off the exception: only for skip classes
+                    stds = [o for o in outs if o != 'success' and (o != 'skip' or cls == ['user', 1, 'skip'])]
+                    rep = ['std', rng.choice(stds)]
+                handlers.append([cls, rep])
+            handled = [h[0] for h in handlers]
+            self.kinds = [(k, w * 6 if k in handled else (w * 2 if k in ('skip', 'xfail') else w)) for k, w in RAISE_KINDS]
         su = self.stage(0, quiet=0.8)
         bo = self.stage(0, body=True, deco=xfail_deco)
         td = self.stage(0, quiet=0.7)
-        handlers = []
-        if rng.random() < 0.3:
-            for cls in rng.sample([['user', 2, 'exc'], ['user', 1, 'skip'], ['user', 3, 'failure'], 'exc'], rng.randint(1, 2)):
-                if rng.random() < 0.75:
-                    rep = ['user', len(handlers), rng.choice(['failure', 'error', 'uxs', 'failure', 'error', 'skip', 'xfail', 'success'])]
-                else:
-                    # the case's own skip reporter reads the reason off the exception: only for skip classes
-                    rep = ['std', rng.choice(['failure', 'error', 'skip', 'xfail', 'uxs'] if cls == ['user', 1, 'skip'] else ['failure', 'error', 'xfail', 'uxs'])]
-                handlers.append([cls, rep])
         n_on_exc = rng.choice([0, 0, 1, 2])
         attrs0 = [[a, 10 + a] for a in range(3) if rng.random() < 0.4]
         flavour = rng.choice(FLAVOURS)
@@ -774,6 +782,8 @@ class RunProp(Prop):
             tag[0] += 1
             if k == 'ret':
                 return 'ret'
+            if isinstance(k, list):
+                return ['raise1', [k, tag[0]]]
             if k == 'multi':
                 tag[0] += 1
                 return ['raiseMulti', [['failure', tag[0] - 1], ['skip', tag[0]]], [MULTI_CLS, 0]]
@@ -788,6 +798,18 @@ class RunProp(Prop):
                         acts = [['cleanup', ['stage', 10 + i, [], term(k)]] for i, k in enumerate(cs)]
                         prog = ['prog', None, False, ['stage', 1, [], term(a)], ['stage', 2, acts, term(b)], ['stage', 3, [], term(c)],
                                 [], 1, [], 'ext']
+                        yield [prog, 1]
+        # handler precedence: a user handler in front of the table x every triple of kinds incl. the handled class
+        for hcls, rep in ((['user', 1, 'skip'], ['user', 0, 'error']), (['user', 3, 'failure'], ['user', 0, 'error']),
+                          (['user', 2, 'exc'], ['std', 'failure']), (['user', 1, 'skip'], ['std', 'skip'])):
+            ks = kinds + [hcls]
+            for a in ks:
+                for b in ks:
+                    for c in ks:
+                        tag[0] = 0
+                        acts = [['cleanup', ['stage', 10, [], term(c)]]]
+                        prog = ['prog', None, False, ['stage', 1, [], 'ret'], ['stage', 2, acts, term(a)], ['stage', 3, [], term(b)],
+                                [[hcls, rep]], 0, [], 'ext']
                         yield [prog, 1]
 
     def shrink(self, inp):
